@@ -553,6 +553,11 @@ func genG7(r rng, n int, t *testing.T) []*Scenario {
 			if r.chance(0.4) {
 				sc.Instances[i].Takeover = true
 				sc.Instances[i].Priority = int(r.between(1, 3))
+				if r.chance(0.3) {
+					// the goroutine that reads the record on the takeover path is descheduled between two statements
+					sc.Rules = append(sc.Rules, Rule{Inst: sc.Instances[i].ID, Kind: "get", Site: "attemptPriorityTakeover", Pre: -1, Post: -1,
+						Stall: r.between(h/2, 3*h)})
+				}
 			}
 			if r.chance(0.3) {
 				sc.Instances[i].ValInt = h
